@@ -43,7 +43,7 @@ ASSUMPTIONS = [
     "the gateway's write-spacing task is slowed from 50 ms to 250 ms (C11's subject) so that a virtual day costs seconds of wall time",
     "faults are confined to the first polling round (the first virtual hour); afterwards the link is clean",
 ]
-REQUIRED = {"state_saves": 5, "scenarios": 16, "scenarios.faulted": 4, "samples.monotone": 100, "rq.0005": 50, "rq.000C": 100}
+REQUIRED = {"pollers.checked": 50, "state_saves": 5, "scenarios": 16, "scenarios.faulted": 4, "samples.monotone": 100, "rq.0005": 50, "rq.000C": 100}
 
 CTL, GWY_ID = "01:145038", "18:006402"
 CLASS_CODE = {"radiator_valve": "08", "zone_valve": "0A", "electric_heat": "11", "mixing_valve": "0B"}
@@ -330,6 +330,23 @@ async def scenario(loop: vloop.VirtualLoop, ctx, trial: int) -> None:
             "after the bound the discovered schema is not the controller's configuration",
             {"missing": missing[:8], "unexpected": extra[:8], "bound_virtual_s": bound, "requests_seen": len(sim.rq_log), "last_requests": [r for _, r in sim.rq_log[-6:]], "scenario": meta},
         )
+    # 'the missing part is filled in at a later polling round' needs pollers that are still there: an entity whose
+    # discovery poller has ended with an exception will never ask again
+    ents = list(gwy.devices)
+    for tcs_ in gwy.systems:
+        ents += [tcs_, *tcs_.zones] + ([tcs_.dhw] if tcs_.dhw else [])
+    for e in ents:
+        task = getattr(e, "_discovery_poller", None)
+        if task is None:
+            continue
+        ctx.count("pollers.checked")
+        if task.done() and not task.cancelled() and task.exception() is not None:
+            err = task.exception()
+            ctx.violate(
+                f"C12|poller-died|{type(err).__name__}|{innermost_lib_frame(err)}",
+                "an entity's discovery poller ended with an exception: whatever it had not learned will never be asked for again",
+                {"entity": str(e.id), "error": repr(err)[:200], "scenario": meta},
+            )
     for u in loop.unhandled:
         ctx.info.setdefault("loop_unhandled", []).append(f"{u['type']}@{u['where']}")
     ctx.ev()
